@@ -80,6 +80,9 @@ def run(a, rep, TypesBuild, tref):
         if not has_double(model, t):
             continue
         docs = law_docs(model, t, cap)
+        if kind == "union" and not cfg["exhaustive"]:
+            # unlisted variants take part in the order as well
+            docs = docs[:cap - 3] + ['{"type":"zzOther","zzOther":1.5}', '{"type":"zzOther","zzOther":"NaN"}', '{"type":"aaFirst","aaFirst":[0.0,{"k":-0.0}]}']
         if len(docs) < 2:
             continue
         types += 1
